@@ -51,6 +51,8 @@ def strategy(tier: str) -> Any:
 
 
 def run_shard(H: Harness) -> None:
+    if H.tier == "thorough":
+        sc.run_small_scope(H, (), flavours=(False, True))
     H.run_hypothesis(strategy)
 
 
